@@ -4,7 +4,7 @@
 (* trace.ndjson: one `load` event per call of ysgo.NewDialogueRunner made by  *)
 (* the harness:                                                               *)
 (*   [id, kind,                                                               *)
-(*    readers : << [errs, mixed, nodes, consumed, opanic, len], ... >>  facts *)
+(*    readers : << [errs, mixed, nodes, consumed, opanic, blank], ... >> facts *)
 (*              of the independent ANTLR oracle for every reader on its own,  *)
 (*    whole   : the same facts for the concatenation of all readers,          *)
 (*    blank   : the concatenation is empty or white space only,               *)
@@ -33,16 +33,15 @@ vars == <<l, bad, nbad, cnt>>
 
 Init == l = 1 /\ bad = <<>> /\ nbad = 0 /\ cnt = <<0, 0, 0>>
 
-FirstInvalid(rs) == CHOOSE j \in DOMAIN rs :
-                      /\ L!Class(rs[j]) = "invalid"
-                      /\ \A k \in DOMAIN rs : (k < j) => L!Class(rs[k]) # "invalid"
+Inv(r) == L!Class(r) = "invalid" /\ ~r.blank
+FirstInvalid(rs) == CHOOSE j \in DOMAIN rs : Inv(rs[j]) /\ \A k \in DOMAIN rs : (k < j) => ~Inv(rs[k])
 
 \* why the property calls this input invalid / valid / leaves it open
 Why(e) ==
   IF L!MustError(e.readers, e.whole)
   THEN IF e.blank \/ e.readers = <<>> THEN "empty"
-       ELSE IF L!SomeInvalid(e.readers) THEN L!Reason(e.readers[FirstInvalid(e.readers)])
-       ELSE L!Reason(e.whole)
+       ELSE IF \E j \in DOMAIN e.readers : Inv(e.readers[j]) THEN L!Reason(e.readers[FirstInvalid(e.readers)])
+       ELSE "empty"   \* per-reader-only reading: a blank reader next to others
   ELSE IF L!MustRunner(e.readers, e.whole, e.seedclass) THEN "valid"
   ELSE "open"
 
